@@ -132,7 +132,13 @@ def finish(mod, prop, tier, seed, agg, wall):
   abort_is_violation = getattr(mod, 'ABORT_IS_VIOLATION', True)
   for a in agg['aborts']:
     if abort_is_violation and a['case'] is not None:
-      agg['violations'].append({'key': None, 'what': 'process aborted (rc=%s) while running the journaled case' % a['returncode'],
+      key = None
+      if hasattr(mod, 'classify_abort'):
+        try:
+          key = mod.classify_abort(a['case'], a['stderr'])
+        except Exception:
+          key = None
+      agg['violations'].append({'key': key, 'what': 'process aborted (rc=%s) while running the journaled case' % a['returncode'],
                                 'witness': {'property': prop, 'tier': tier, 'seed': seed, 'shard': a['shard'],
                                             'kind': 'abort', 'case': a['case'], 'stderr': a['stderr']}})
     else:
